@@ -491,7 +491,7 @@ theorem fr_light_filter_no_crash (uc : GoStd.Unicode) (term : List (BitVec 8)) (
   viaRunes_no_crash _ term h (fun rs hrs => fr_stem_spec uc rs (by omega))
 
 /-- every filter the `stem` op runs, on every term (shorter than 2^55 bytes), whatever the unicode tables: no panic -/
-theorem stem_filters_no_crash (uc : GoStd.Unicode) (name : String) (f : Bytes → Res Bytes) (hf : C18S.stemFn uc name = some f)
+theorem stem_filters_no_crash (uc : GoStd.Unicode) (name : String) (f : List (BitVec 8) → Res (List (BitVec 8))) (hf : C18S.stemFn uc name = some f)
     (term : List (BitVec 8)) (h : term.length < 2 ^ 55) : f term ≠ .crash := by
   unfold C18S.stemFn at hf
   split at hf <;> first
